@@ -47,6 +47,9 @@ func TestVerifC07(t *testing.T) {
 	for _, same := range []bool{false, true} {
 		shapes = append(shapes, simIn{N: 3, WaitCount: 1, Failover: true, Fault: "crash_node", Target: 1, At: 2, Duration: 14, NextSame: same, Ticks: 40})
 	}
+	// ... and the old master never comes back: the successor has to finish the failover with what is left
+	shapes = append(shapes, simIn{N: 3, WaitCount: 1, Failover: true, Fault: "crash_node", Target: 1, At: 2, Duration: 1000, Ticks: 40},
+		simIn{N: 4, WaitCount: 2, Failover: true, Fault: "crash_node", Target: 1, At: 2, Duration: 1000, NextSame: true, Ticks: 40})
 	if o.Thorough() {
 		for _, fault := range []string{"switch_to", "switch_from"} {
 			shapes = append(shapes, simIn{N: 4, WaitCount: 2, Failover: true, Fault: fault, Target: 3, At: 2, Duration: 1, Ticks: 26},
